@@ -9,6 +9,7 @@ open Btc Gen.Taproot
 /-- the script position: a list of commands serialising to `b` (`[]` serialises to `b""`) -/
 inductive IsScript : PyVal → Bytes → Prop
   | cmds (n : Nat) (b : Bytes) : IsScript (.cmds n b) b
+  | script (cs : List Cmd) (b : Bytes) : serializeTap cs = .ok b → IsScript (.script cs) b
   | nil : IsScript (.nil true) []
 
 /-- `WellFormed v t`: the Python value `v` is a script tree in the sense of the `TaprootScriptTree` alias — a node is a
@@ -25,13 +26,21 @@ theorem scriptBytes_ok_iff (s : PyVal) (b : Bytes) : s.scriptBytes = .ok b ↔ I
   · intro h
     cases s with
     | cmds n b' => cases h; exact .cmds n b
+    | script cs =>
+      simp only [PyVal.scriptBytes] at h
+      cases hs : serializeTap cs with
+      | ok b' => rw [hs] at h; cases h; exact .script cs b hs
+      | error e => rw [hs] at h; cases e <;> cases h
     | nil l => cases l <;> cases h; exact .nil
     | one l _ => cases l <;> cases h
     | two l _ _ => cases l <;> cases h
     | many l _ => cases l <;> cases h
     | int _ => cases h
     | atom _ => cases h
-  · rintro (⟨n, b⟩ | _) <;> rfl
+  · rintro (⟨n, b⟩ | ⟨cs, b, hs⟩ | _)
+    · rfl
+    · simp only [PyVal.scriptBytes, hs]
+    · rfl
 
 theorem toLeaf_ok_iff (x : PyVal) (t : Tree) :
     x.toLeaf = .ok t ↔ ∃ l' v s b, x = .two l' (.int v) s ∧ IsScript s b ∧ t = .leaf (v % 256).toNat b := by
@@ -48,13 +57,8 @@ theorem toLeaf_ok_iff (x : PyVal) (t : Tree) :
           rw [hs] at h; cases h
           exact ⟨l', v, s, b, rfl, (scriptBytes_ok_iff s b).mp hs, rfl⟩
       | _ => cases h
-    | cmds n b =>
-      unfold PyVal.toLeaf at h
-      split at h
-      · rename_i heq; cases heq
-      · rename_i heq; cases heq
-      · cases h
-      · cases h
+    | cmds n b => unfold PyVal.toLeaf at h; split at h <;> first | cases h | (rename_i heq; cases heq)
+    | script cs => unfold PyVal.toLeaf at h; split at h <;> first | cases h | (rename_i heq; cases heq)
     | _ => cases h
   · rintro ⟨l', v, s, b, rfl, hs, rfl⟩
     simp only [PyVal.toLeaf, (scriptBytes_ok_iff s b).mpr hs]; rfl
@@ -121,11 +125,10 @@ theorem toTreeAt_ok_wellFormed : ∀ (v : PyVal) (d : Nat) (t : Tree), v.toTreeA
   | .many _ _, d, t, h => by simp only [PyVal.toTreeAt] at h; split at h <;> cases h
   | .cmds n b, d, t, h => by
     unfold PyVal.toTreeAt at h
-    split at h
-    · rename_i heq; cases heq
-    · rename_i heq; cases heq
-    · split at h <;> cases h
-    · split at h <;> cases h
+    split at h <;> first | (rename_i heq; cases heq; done) | (repeat' split at h) <;> cases h
+  | .script cs, d, t, h => by
+    unfold PyVal.toTreeAt at h
+    split at h <;> first | (rename_i heq; cases heq; done) | (repeat' split at h) <;> cases h
 
 /-- what `tree_helper` does not refuse is a well-formed script tree of depth ≤ `MAX_TREE_DEPTH`, and every such tree
     is answered -/
@@ -158,6 +161,9 @@ theorem toTree_falsy (v : PyVal) (h : v.truthy = false) : v.toTree = .error .nod
   | nil _ => rfl
   | cmds n b =>
     have : n = 0 := by simpa [PyVal.truthy] using h
+    subst this; rfl
+  | script cs =>
+    have : cs = [] := by simpa [PyVal.truthy] using h
     subst this; rfl
   | one _ _ => cases h
   | two _ _ _ => cases h
